@@ -1163,3 +1163,62 @@ def call_keyword_states(ctx: Ctx, f: FunctionInfo, n: Node) -> Set[frozenset]:
             sub = _dict_key_sets(kw.value)
         states = {a_ | b_ for a_ in states for b_ in (sub or {frozenset({"?"})})}
     return states
+
+
+def effective_returns(ctx: Ctx, f: FunctionInfo) -> List[Tuple[Node, Optional[ast.AST]]]:
+    """(node, value expression) for every way f hands out a result: its own `return` statements, and - when the returned
+    expression is a call of a helper analysed in place - that helper's return sites instead."""
+    g = ctx.cfg(f)
+    out: List[Tuple[Node, Optional[ast.AST]]] = []
+    seen: Set[int] = set()
+
+    def expand(n: Node, v: Optional[ast.AST], depth: int = 0) -> None:
+        if isinstance(v, ast.Call) and id(v) in g.inline_returns and depth < 4:
+            for rexpr, rnode in g.inline_returns[id(v)]:
+                if rnode in g.reachable() and rnode not in seen:
+                    seen.add(rnode)
+                    expand(g.nodes[rnode], rexpr, depth + 1)
+            return
+        out.append((n, v))
+
+    for n in g.nodes:
+        if n.kind == "return" and n.id in g.reachable():
+            expand(n, n.ast.value)  # type: ignore[union-attr]
+    return out
+
+
+def resolve_value(ctx: Ctx, f: FunctionInfo, e: Optional[ast.AST], at: int, depth: int = 0) -> List[Tuple[Optional[ast.AST], int]]:
+    """The expressions a value can come from, looking through local variables (all reaching definitions), tuple
+    unpacking (`a, b = x, y` / `a, b = helper()`), and calls of helpers analysed in place (their return expressions).
+    A `None` guard value (`x = None`) is reported like any other expression; parameters end the chain as the Name."""
+    g = ctx.cfg(f)
+    if e is None or depth > 8:
+        return [(e, at)]
+    if isinstance(e, ast.Call) and id(e) in g.inline_returns:
+        out: List[Tuple[Optional[ast.AST], int]] = []
+        for rexpr, rnode in g.inline_returns[id(e)]:
+            if rnode in g.reachable():
+                out += resolve_value(ctx, f, rexpr, rnode, depth + 1)
+        return out or [(e, at)]
+    if isinstance(e, ast.Name):
+        defs = ctx.rd(f).reaching(at, e.id)
+        out = []
+        for d in defs:
+            dn = g.nodes[d]
+            if d == g.entry or not isinstance(dn.ast, ast.Assign) or len(dn.ast.targets) != 1:
+                out.append((e, at))
+                continue
+            tg = dn.ast.targets[0]
+            if isinstance(tg, ast.Name):
+                out += resolve_value(ctx, f, dn.ast.value, d, depth + 1)
+            elif isinstance(tg, (ast.Tuple, ast.List)):
+                idx = next((i for i, t in enumerate(tg.elts) if isinstance(t, ast.Name) and t.id == e.id), None)
+                for src, sat in resolve_value(ctx, f, dn.ast.value, d, depth + 1):
+                    if idx is not None and isinstance(src, (ast.Tuple, ast.List)) and len(src.elts) == len(tg.elts):
+                        out += resolve_value(ctx, f, src.elts[idx], sat, depth + 1)
+                    else:
+                        out.append((src, sat))
+            else:
+                out.append((e, at))
+        return out or [(e, at)]
+    return [(e, at)]
